@@ -85,6 +85,7 @@ func c12tag(err error) string {
 
 type c12rpc struct {
 	r   *rand.Rand
+	rs  *rand.Rand // the batch sweeps draw from their own generator, so the PRNG-driven operations stay what they were
 	w   *bufio.Writer
 	t   *testing.T
 	n   int
@@ -322,6 +323,109 @@ func (g *c12rpc) rbatch() {
 	fmt.Fprintln(g.w, line)
 }
 
+// rbatchExact: a batch for exactly this stream and these sequences (canonical address, in-range chain numbers)
+func (g *c12rpc) rbatchExact(ec, tc uint16, a vaa.Address, seqs []uint64) {
+	as := hex.EncodeToString(a[:])
+	req := &publicrpcv1.GetNonGovernanceVAABatchRequest{EmitterChain: publicrpcv1.ChainID(ec), EmitterAddress: as, TargetChain: publicrpcv1.ChainID(tc), Sequences: seqs}
+	res := "ok"
+	var parts []string
+	func() {
+		defer func() {
+			if e := recover(); e != nil {
+				res = "panic"
+			}
+		}()
+		resp, err := g.s.GetNonGovernanceVAABatch(context.Background(), req)
+		if err != nil {
+			res = c12tag(err)
+			if resp != nil {
+				res = "errnonnil"
+			}
+			return
+		}
+		for _, e := range resp.Entries {
+			parts = append(parts, fmt.Sprintf("%d:%s", e.Sequence, c12hex(e.VaaBytes)))
+		}
+	}()
+	line := fmt.Sprintf("rbatch %s ec=%d addr=%s tc=%d seqs=%s res=%s", g.cid, ec, c12hex([]byte(as)), tc, c12u64s(seqs), res)
+	if res == "ok" {
+		o := "-"
+		if len(parts) > 0 {
+			o = strings.Join(parts, ";")
+		}
+		line += " out=" + o
+	}
+	fmt.Fprintln(g.w, line)
+}
+
+// batchSweep: every stream of the case is asked for all its sequences 0..maxSeq+1 (stored ones and holes) in batches of 2..20 -
+// ascending, descending, shuffled - and for pairs (stored, hole), (hole, stored), (stored, another stored)
+func (g *c12rpc) batchSweep() {
+	storedSeqs := map[string][]uint64{}
+	key := func(ec, tc uint16, a vaa.Address) string { return fmt.Sprintf("%d/%x/%d", ec, a[:], tc) }
+	seen := map[string]bool{}
+	for _, id := range g.stored {
+		if k := string(id.Bytes()); !seen[k] {
+			seen[k] = true
+			sk := key(uint16(id.EmitterChain), uint16(id.TargetChain), id.EmitterAddress)
+			storedSeqs[sk] = append(storedSeqs[sk], id.Sequence)
+		}
+	}
+	for _, ec := range g.ecs {
+		for _, a := range g.addrs {
+			for _, tc := range g.tcs {
+				st := storedSeqs[key(ec, tc, a)]
+				if len(st) == 0 && g.rs.Intn(4) != 0 {
+					continue
+				}
+				var all []uint64
+				for q := 0; q <= g.maxSeq+1; q++ {
+					all = append(all, uint64(q))
+				}
+				for lo := 0; lo < len(all); lo += 20 {
+					hi := lo + 20
+					if hi > len(all) {
+						hi = len(all)
+					}
+					asc := append([]uint64{}, all[lo:hi]...)
+					g.rbatchExact(ec, tc, a, asc)
+					desc := make([]uint64, len(asc))
+					for i, q := range asc {
+						desc[len(asc)-1-i] = q
+					}
+					g.rbatchExact(ec, tc, a, desc)
+					sh := append([]uint64{}, asc...)
+					g.rs.Shuffle(len(sh), func(i, j int) { sh[i], sh[j] = sh[j], sh[i] })
+					if len(sh) >= 2 {
+						g.rbatchExact(ec, tc, a, sh[:2+g.rs.Intn(len(sh)-1)])
+					}
+				}
+				if len(st) > 0 {
+					isStored := map[uint64]bool{}
+					for _, q := range st {
+						isStored[q] = true
+					}
+					hole := uint64(g.maxSeq + 2)
+					for q := uint64(0); q <= uint64(g.maxSeq+1); q++ {
+						if !isStored[q] {
+							hole = q
+							break
+						}
+					}
+					x := st[g.rs.Intn(len(st))]
+					g.rbatchExact(ec, tc, a, []uint64{x, hole})
+					g.rbatchExact(ec, tc, a, []uint64{hole, x})
+					if len(st) > 1 {
+						y := st[g.rs.Intn(len(st))]
+						g.rbatchExact(ec, tc, a, []uint64{x, y})
+						g.rbatchExact(ec, tc, a, []uint64{hole, y, hole + 1, x})
+					}
+				}
+			}
+		}
+	}
+}
+
 func (g *c12rpc) rgov() {
 	seqs := g.seqList()
 	req := &publicrpcv1.GetGovernanceVAABatchRequest{Sequences: seqs}
@@ -370,7 +474,7 @@ func TestVerifDbRpc(t *testing.T) {
 	defer f.Close()
 	w := bufio.NewWriterSize(f, 1<<20)
 	defer w.Flush()
-	g := &c12rpc{r: rand.New(rand.NewSource(seed ^ 0x5bd1e995)), w: w, t: t}
+	g := &c12rpc{r: rand.New(rand.NewSource(seed ^ 0x5bd1e995)), rs: rand.New(rand.NewSource(seed ^ 0x1b873593)), w: w, t: t}
 	ncases, nops := 12, 220
 	if tier == "thorough" {
 		ncases, nops = 250, 400
@@ -393,6 +497,8 @@ func TestVerifDbRpc(t *testing.T) {
 				g.rgov()
 			}
 		}
+		// every stream through the batch RPC: all its sequences, stored ones and holes, in batches of 2..20
+		g.batchSweep()
 		// every stored identifier through the RPC, exactly
 		seen := map[string]bool{}
 		for _, id := range g.stored {
